@@ -1224,6 +1224,120 @@ class Canon:
                 stack.extend(ast.iter_child_nodes(n))
         return False
 
+    READ_PREFIXES = ('get_', 'is_', 'has_', 'find_', 'iterate_', 'iter_', 'traverse', 'filter_', 'reversed_')
+    READ_METHODS = {'index', 'count', 'startswith', 'endswith', 'split', 'rsplit', 'join', 'strip', 'lstrip', 'rstrip', 'items', 'keys', 'values', 'get', 'copy', 'lower', 'upper',
+                    'capitalize', 'format', 'replace', 'isdigit', 'isupper', 'islower', 'find', 'group', 'groups', 'match', 'fullmatch', 'search', 'findall', 'debug', 'info',
+                    'warning', 'error', '__deepcopy__', '__copy__'}
+
+    @staticmethod
+    def _root_name(e):
+        while isinstance(e, (ast.Attribute, ast.Subscript, ast.Call)):
+            e = e.func if isinstance(e, ast.Call) else e.value
+        return e.id if isinstance(e, ast.Name) else None
+
+    def _value_stable(self, fn, def_stmt, x, value) -> bool:
+        """`value` denotes the same object at every use of x as at the definition: between the definition and a use nothing is executed that
+        may change what the objects named in `value` refer to.  Interfering: a call of a method that is not a reader (get_* / is_* / find_* /
+        iterate_* ..., str and dict readers) whose receiver or one of whose arguments starts at a name of `value` (for an accessor call also at x
+        itself: editing the returned node may change the back pointer the accessor reads); a call of a plain function of the program with such an
+        argument or of a function nested in fn; a store / del / augmented store through such a name.  A statement interferes with a use when it
+        lies between definition and use in source order (the statement of the use itself excluded: receiver and arguments are evaluated before
+        the call is made), or when both sit in a loop that does not contain the definition.  Distinct local names are taken to denote distinct
+        objects (stated assumption)."""
+        if isinstance(value, ast.Constant):
+            return True
+        roots = {n.id for n in ast.walk(value) if isinstance(n, ast.Name)} - self.PURE_FUNCS
+        has_call = any(isinstance(n, ast.Call) and isinstance(n.func, ast.Attribute) for n in ast.walk(value))
+        if has_call:
+            roots = roots | {x}
+        nested = {n.name for n in ast.walk(fn) if isinstance(n, (ast.FunctionDef, ast.AsyncFunctionDef)) and n is not fn}
+        order, loops_of, stmt_of = [], {}, {}
+
+        def number(stmts, loops):
+            for s in stmts:
+                order.append(s)
+                loops_of[id(s)] = loops
+                inner = loops + [s] if isinstance(s, (ast.For, ast.While)) else loops
+                own = [s]
+                while own:
+                    n = own.pop()
+                    stmt_of[id(n)] = s
+                    for c in ast.iter_child_nodes(n):
+                        if not isinstance(c, ast.stmt) and not isinstance(c, ast.ExceptHandler):
+                            own.append(c)
+                if isinstance(s, (ast.FunctionDef, ast.AsyncFunctionDef, ast.ClassDef)):
+                    # the body runs when the function is called: its uses are handled by the caller of this method
+                    for n in ast.walk(s):
+                        stmt_of.setdefault(id(n), s)
+                    continue
+                for field in ('body', 'orelse', 'finalbody'):
+                    sub = getattr(s, field, None)
+                    if isinstance(sub, list) and sub and isinstance(sub[0], ast.stmt):
+                        number(sub, inner)
+                for h in getattr(s, 'handlers', []) or []:
+                    number(h.body, inner)
+        number(fn.body, [])
+        pos = {id(s): k for k, s in enumerate(order)}
+        if id(def_stmt) not in pos:
+            return False
+        d = pos[id(def_stmt)]
+
+        def interferes(s) -> bool:
+            own = [s]
+            nodes = []
+            while own:
+                n = own.pop()
+                nodes.append(n)
+                for c in ast.iter_child_nodes(n):
+                    if not isinstance(c, (ast.stmt, ast.ExceptHandler)):
+                        own.append(c)
+            for n in nodes:
+                if isinstance(n, ast.Call):
+                    args = list(n.args) + [k.value for k in n.keywords]
+                    arg_roots = {self._root_name(a.value if isinstance(a, ast.Starred) else a) for a in args}
+                    if isinstance(n.func, ast.Attribute):
+                        if n.func.attr.startswith(self.READ_PREFIXES) or n.func.attr in self.READ_METHODS:
+                            continue
+                        if self._root_name(n.func.value) in roots or arg_roots & roots:
+                            return True
+                    elif isinstance(n.func, ast.Name):
+                        if n.func.id in nested:
+                            return True
+                        if n.func.id in self.PURE_FUNCS or n.func.id in ('isinstance', 'len', 'enumerate', 'sorted', 'list', 'tuple', 'set', 'dict', 'zip', 'reversed', 'range',
+                                                                        'min', 'max', 'sum', 'any', 'all', 'print', 'repr', 'id', 'getattr', 'super', 'iter', 'next', 'bool'):
+                            continue
+                        if arg_roots & roots:
+                            return True
+                    elif arg_roots & roots:
+                        return True
+                elif isinstance(n, (ast.Attribute, ast.Subscript)) and isinstance(n.ctx, (ast.Store, ast.Del)):
+                    if self._root_name(n) in roots:
+                        return True
+            return False
+        # a raise ends the function (unless fn has handlers of its own): what its operand does to the objects is not seen by any later use
+        has_try = any(isinstance(n, ast.Try) for n in ast.walk(fn))
+        bad = [s for s in order if pos[id(s)] > d and not isinstance(s, (ast.FunctionDef, ast.AsyncFunctionDef, ast.ClassDef)) and
+               not (isinstance(s, ast.Raise) and not has_try) and interferes(s)]
+        if not bad:
+            return True
+        def_loops = {id(l) for l in loops_of[id(def_stmt)]}
+        for n in ast.walk(fn):
+            if isinstance(n, ast.Name) and n.id == x and isinstance(n.ctx, ast.Load):
+                us = stmt_of.get(id(n))
+                if us is None:
+                    return False
+                if isinstance(us, (ast.FunctionDef, ast.AsyncFunctionDef, ast.ClassDef)):
+                    return False                # used in a nested function that may run after an interfering statement
+                u = pos[id(us)]
+                use_loops = {id(l) for l in loops_of[id(us)]} | ({id(us)} if isinstance(us, (ast.For, ast.While)) else set())
+                for b in bad:
+                    if d < pos[id(b)] < u:
+                        return False
+                    shared = (use_loops & ({id(l) for l in loops_of[id(b)]} | ({id(b)} if isinstance(b, (ast.For, ast.While)) else set()))) - def_loops
+                    if shared:
+                        return False
+        return True
+
     def _exception_point_kept(self, lst, i, x, value) -> bool:
         """moving the evaluation of `value` from lst[i] to the uses of x keeps what is raised and when: value cannot raise, or the first use follows
         in the same statement list, is evaluated unconditionally, and only transparent statements lie in between"""
@@ -1273,7 +1387,8 @@ class Canon:
                                 return node
                         # uses before the definition (loops) would change meaning: require the definition to precede every use textually
                         first_use = min((n.lineno for n in ast.walk(fn) if isinstance(n, ast.Name) and n.id == x and isinstance(n.ctx, ast.Load) and hasattr(n, 'lineno')), default=None)
-                        if first_use is not None and first_use >= getattr(st, 'lineno', 0) and self._exception_point_kept(lst, i, x, value):
+                        if first_use is not None and first_use >= getattr(st, 'lineno', 0) and self._exception_point_kept(lst, i, x, value) \
+                                and self._value_stable(fn, st, x, value):
                             del lst[i]
                             if not lst:
                                 lst.append(ast.copy_location(ast.Pass(), st))
